@@ -11,7 +11,7 @@ PID = "C16"
 LEVEL = "model_checking"
 RULE = (
     "E2: breadth-first search over all reachable states of entity pyscript.e1 (absent, or one of 7 values x attribute "
-    "sets over a in {-,1,2}, b in {-,[1]}, c in {-,3}) with a second entity pyscript.e2 as bystander; from every reachable "
+    "sets over a in {-,1,2}, b in {-,[1]}, c in {-,0}) with a second entity pyscript.e2 as bystander; from every reachable "
     "state every operation of the alphabet (script-side reads, assignments of str/int/float/bool/list/dict values, "
     "attribute assignment, state.set with every combination of value / new_attributes / keyword attributes, state.setattr, "
     "del / state.delete of entity and attribute, state.exist, state.names, state.getattr, snapshot capture and later "
@@ -65,6 +65,9 @@ def ops():
         out.append((f"assign{i}", "code"))
     out.append(("attr_assign_a2", "code"))
     out.append(("attr_assign_a1", "code"))
+    out.append(("attr_assign_a0", "code"))
+    out.append(("snapassign", "code"))
+    out.append(("snapset", "code"))
     for val, na, kw in itertools.product((0, 1), repeat=3):
         out.append((f"set_v{val}n{na}k{kw}", "code"))
     out.append(("set_newattr_empty", "code"))
@@ -75,6 +78,7 @@ def ops():
     out.append(("delete_attr_b", "code"))
     out.append(("exist", "code"))
     out.append(("exist_a", "code"))
+    out.append(("exist_c", "code"))
     out.append(("exist_virt", "code"))
     out.append(("names", "code"))
     out.append(("getattr", "code"))
@@ -133,7 +137,15 @@ def step(m, op):
         src, val = ASSIGN_VALUES[int(op[6:])]
         sm.set(E1N, val, None)
         return wrap_stmt(f"pyscript.e1 = {src}"), ("ok", None)
-    if op in ("attr_assign_a2", "attr_assign_a1"):
+    if op in ("snapassign", "snapset"):
+        # a captured snapshot used as the new value: value and attributes are taken from the snapshot
+        code = wrap_stmt("pyscript.e1 = snaps['s']") if op == "snapassign" else wrap_stmt("state.set('pyscript.e1', snaps['s'])")
+        if m.snap is None:
+            return None, None
+        attrs = {k: eval(v) for k, v in m.snap[2]}  # noqa: S307
+        sm.set(E1N, m.snap[1], attrs)
+        return code, ("ok", None)
+    if op in ("attr_assign_a2", "attr_assign_a1", "attr_assign_a0"):
         v = int(op[-1])
         if not exists:
             return wrap_stmt(f"pyscript.e1.a = {v}"), NE
@@ -151,10 +163,10 @@ def step(m, op):
         if na:
             args.append("new_attributes={'b': [1]}")
         if kw:
-            args.append("c=3")
+            args.append("c=0")
         attrs = {"b": [1]} if na else (dict(cur[1]) if exists else {})
         if kw:
-            attrs["c"] = 3
+            attrs["c"] = 0
         sm.set(E1N, "on2" if val else None, attrs)
         return wrap_stmt(f"state.set({', '.join(args)})"), ("ok", None)
     if op == "set_newattr_empty":
@@ -190,6 +202,8 @@ def step(m, op):
         return wrap("state.exist('pyscript.e1')"), ("ok", ("v", repr(exists)))
     if op == "exist_a":
         return wrap("state.exist('pyscript.e1.a')"), ("ok", ("v", repr(exists and "a" in cur[1])))
+    if op == "exist_c":
+        return wrap("state.exist('pyscript.e1.c')"), ("ok", ("v", repr(exists and "c" in cur[1])))
     if op == "exist_virt":
         return wrap("state.exist('pyscript.e1.last_changed')"), ("ok", ("v", repr(exists)))
     if op == "names":
@@ -227,8 +241,9 @@ def canon_native(v):
 
     if isinstance(v, StateVal):
         attrs = {k: x for k, x in v.__dict__.items() if k not in VIRTUAL}
-        return ("sv", str(v), tuple(sorted((k, repr(x)) for k, x in attrs.items())), v.entity_id,
-                type(v.last_changed).__name__)
+        virt = [type(getattr(v, n, None)).__name__ for n in ("last_changed", "last_updated", "last_reported")]
+        return ("sv", str(v), tuple(sorted((k, repr(x)) for k, x in attrs.items())), getattr(v, "entity_id", None),
+                virt[0] if len(set(virt)) == 1 else repr(virt))
     if callable(v):
         return ("callable",)
     if isinstance(v, tuple) and any(isinstance(x, tuple) for x in v):
@@ -287,6 +302,11 @@ def run_seq(seq, legacy=False):
             obs.append((op, got))
             if exp is not None and got != _norm(exp):
                 return {"kind": "script-observation", "op": op, "step": i, "expected": _norm(exp), "observed": got}, obs, m
+            if m.snap is not None:
+                # a captured snapshot never changes afterwards (checked after every operation)
+                now_snap = _norm(canon_native(w.g()["snaps"]["s"]))
+                if now_snap != _norm(m.snap):
+                    return {"kind": "snapshot-changed", "op": op, "step": i, "expected": _norm(m.snap), "observed": now_snap}, obs, m
             hc, mc_ = hass_canon(w), model_canon(m.sm)
             if hc != mc_:
                 return {"kind": "state-machine", "op": op, "step": i, "expected": mc_, "observed": hc}, obs, m
